@@ -178,7 +178,7 @@ def main():
             "guard": "--cfg echo_verif",
             "enable": "rustflags in /verif/harness/.cargo/config.toml: --cfg echo_verif (path dependency on /repo/crates/warp-core); hooks live in crates/warp-core/src/verif.rs, Engine::verif_* in engine_impl.rs and the claim hook in parallel/exec.rs",
             "baseline_off_cmd": "cd /repo && cargo nextest run --workspace --no-fail-fast --tool-config-file pb:/w/lib/nextest.toml --profile pb --test-threads 8 --offline",
-            "source_commits": ["7094206", "e1752a2"],
+            "source_commits": ["7094206", "e1752a2", "a471da9"],
             "add_only": True,
         },
         "engines": [{
